@@ -45,6 +45,7 @@ type World struct {
 	UnbindRan      int
 	Notes          map[string]int
 	TLSCfg         *tls.Config // server config used by the StartTLS handler
+	SharedCtl      map[string]gldap.Control
 }
 
 func W() *World {
@@ -79,6 +80,7 @@ type HSpec struct {
 	Panic       string // "before" | "after" : panic before / after writing
 	Yields      int    // extra scheduling points before writing
 	YieldsAfter int
+	Ctl         string // attach the scenario's shared control object of this kind to the final response (bind, search)
 }
 
 type logCapture struct {
@@ -124,7 +126,8 @@ const defaultAddr = "127.0.0.1:3890"
 // NewWorld must be the first call of a scenario body.
 func NewWorld() *World {
 	vnet.Reset()
-	w := &World{PerMsg: map[int64]*HSpec{}, Notes: map[string]int{}, LogBuf: &logCapture{}}
+	vrt.PermuteMaps = true
+	w := &World{PerMsg: map[int64]*HSpec{}, Notes: map[string]int{}, LogBuf: &logCapture{}, SharedCtl: map[string]gldap.Control{}}
 	if vrt.Current() == nil {
 		vrt.StartFree(w)
 	} else {
@@ -163,6 +166,44 @@ func finalFor(route string, req *gldap.Request) gldap.Response {
 	default:
 		return req.NewExtendedResponse(gldap.WithResponseCode(gldap.ResultSuccess))
 	}
+}
+
+var ctlKinds = []string{"behera-grace", "behera-expire", "behera-error", "paging", "string", "managedsait", "ms-notification", "ms-showdeleted", "ms-serverlinkttl"}
+
+// newCtl builds a fresh control of a named kind.
+func newCtl(kind string) gldap.Control {
+	var c gldap.Control
+	var err error
+	switch kind {
+	case "behera-grace":
+		c, err = gldap.NewControlBeheraPasswordPolicy(gldap.WithGraceAuthNsRemaining(3))
+	case "behera-expire":
+		c, err = gldap.NewControlBeheraPasswordPolicy(gldap.WithSecondsBeforeExpiration(86400))
+	case "behera-error":
+		c, err = gldap.NewControlBeheraPasswordPolicy(gldap.WithErrorCode(2))
+	case "paging":
+		p, e := gldap.NewControlPaging(100)
+		if e == nil {
+			p.SetCookie([]byte{0, 1, 0xff})
+		}
+		c, err = p, e
+	case "string":
+		c, err = gldap.NewControlString("1.2.3.4", gldap.WithCriticality(true), gldap.WithControlValue("v\x00"))
+	case "managedsait":
+		c, err = gldap.NewControlManageDsaIT(gldap.WithCriticality(true))
+	case "ms-notification":
+		c, err = gldap.NewControlMicrosoftNotification()
+	case "ms-showdeleted":
+		c, err = gldap.NewControlMicrosoftShowDeleted()
+	case "ms-serverlinkttl":
+		c, err = gldap.NewControlMicrosoftServerLinkTTL()
+	default:
+		panic("newCtl: " + kind)
+	}
+	if err != nil {
+		panic(err)
+	}
+	return c
 }
 
 func msgIDOf(r *gldap.Request) int64 { return gldap.VMessage(r).GetID() }
@@ -212,7 +253,18 @@ func (w *World) handler(route string) gldap.HandlerFunc {
 			write(entryFrameFor(r, sz, i))
 		}
 		if !sp.NoFinal {
-			write(finalFor(route, r))
+			fin := finalFor(route, r)
+			if sp.Ctl != "" {
+				// one control object, created once, attached to the responses of several handlers
+				ctl := w.SharedCtl[sp.Ctl] // created by the scenario body before the server was started
+				switch f := fin.(type) {
+				case *gldap.BindResponse:
+					f.SetControls(ctl)
+				case *gldap.SearchResponseDone:
+					f.SetControls(ctl)
+				}
+			}
+			write(fin)
 		}
 		if sp.Panic == "after" {
 			vrt.Atomic(func() { w.Notes["panicked"]++ })
